@@ -158,6 +158,8 @@ def run_case(case, rec, cid):
         def t():
             s = str(r)
             r2 = recur._PARSER.parse(s)
+            if case.get("noiter"):
+                return dict(eq=bool(r2 == r) and r2.duration == r.duration and r2.repetitions == r.repetitions, strfix=str(r2) == s, p1=[], p2=[])
             return dict(eq=bool(r2 == r), strfix=str(r2) == s, p1=_pts(r), p2=_pts(r2))
         st, v = outcome(t)
         if st == "ok":
@@ -213,6 +215,12 @@ def expand(job):
         else:
             pts_ = [desc["a"]] + ([desc["s"]] if desc["fmt"] == 1 else [])
             if any(p_.get("xd") or p_["y"] < 0 or p_["y"] > 9999 for p_ in pts_):
+                continue
+            if desc["fmt"] != 1 and desc["n"] != 1 and rnd.random() < 0.25:
+                # intervals with decimals, down to ones Python prints in exponent notation: the text form must give them back
+                # (iteration is not asked for: `noiter`)
+                desc = dict(desc, d={rnd.choice(["h", "mi", "s"]): rnd.choice([0.5, 1.25, 0.0000125, 1e-07, 3e-10, 9.99999e-05, 0.1234567891234, 2.5e-06])})
+                yield {"mode": sp, "rec": desc, "kind": "text", "noiter": True}
                 continue
             yield {"mode": sp, "rec": desc, "kind": "text"}
 
